@@ -401,6 +401,19 @@ def check(pid, tier, seed):
                     nbad.append({"seed": s, "n": n, "why": l[4:]})
                 elif l.startswith("SUMMARY"):
                     nops += int(re.search(r"ops=(\d+)", l).group(1)) if not nbad else 0
+        NT = ["ShipVerif.Notify.notifyCfg_is_fixed", "ShipVerif.Notify.inv_run", "ShipVerif.Notify.C18_queue_drained", "ShipVerif.Notify.C18_single_deliverer",
+              "ShipVerif.Notify.C18_queue_drained_repo", "ShipVerif.Notify.C18_late_clear_loses_update"]
+        pb = C.lake_build(["ShipVerif.Props.C18Notify"])
+        n_ok = pb.returncode == 0
+        naud = C.audit("C18notify", NT, ["ShipVerif.Props.C18Notify"]) if n_ok else []
+        cov["obligations"] += len(NT)
+        cov["discharged"] += sum(1 for a in naud if a["ok"]) if n_ok else 0
+        cov["theorems"] = cov.get("theorems", []) + naud
+        if not n_ok and not nbad:
+            R.violation({"property": pid, "broken": "lake build ShipVerif.Props.C18Notify: the regenerated fact of hub/hub.go deliverPairingNotifications (the delivery-active mark is cleared in the critical section that finds the queue empty) no longer matches; C18_late_clear_loses_update is the schedule that then loses an update",
+                         "detail": (pb.stdout or "")[-2000:]}, "notifyproof", no_input=True)
+        if n_ok and [a for a in naud if not a["ok"]]:
+            R.violation({"broken": "axiom audit", "theorems": [a for a in naud if not a["ok"]]}, "notifyaxioms", no_input=True)
         if nbad:
             R.violation({"property": pid, "kind": "a pairing-state update is never delivered: at a stable point the application's last notification differs from the state the hub reports",
                          "replay": "harness notifystress -seed <seed> -n <n>: a started hub without peers, RegisterRemoteSKI / CancelPairingWithSKI back to back, the application's callback busy for 0-3 us",
